@@ -614,10 +614,11 @@ def toy_program(rng):
         elif k == "C":
             segs.append((["# comment %d 'q" % j], []))
         elif k == "S":
-            segs.append((["(exit %d)" % (j % 5 + 1)], [("status", str(j % 5 + 1), "", 0)]))
+            sc = rng.choice([1, 2, 5, 126, 127, 255, 256, 257, 300, 511, 65536 + 3])
+            segs.append((["(exit %d)" % sc], [("status", str(sc), "", 0)]))
     x = rng.random()
     if x < 0.3:
-        code = rng.choice([0, 4, 9])
+        code = rng.choice([0, 4, 9, 255, 256, 300, 1000, -1, -2, -256])
         segs.append((["exit %d" % code], [("exit", str(code), "", 0)]))
         if rng.random() < 0.6:
             segs.append((["echo p99:$LINENO"], [("print", "p99", "", 1)]))
@@ -803,6 +804,130 @@ def check_lex(ctx, workdir, res):
     res["spec_vs_bash"]["lex_grammar_vs_bash_n"] = len(cand)
     res["spec_vs_bash"]["lex_grammar_disagrees_with_bash_n"] = bad
 
+
+# --------------------------------------------------------------------------------------------
+# delivery contexts (differential only: brush vs bash per mode, and brush's modes among themselves):
+# $0 and positional parameters, exit-status propagation (codes >= 256, negative), set -e / set -u,
+# EXIT and ERR traps at the end of each front-end, aliases defined earlier in the same delivery,
+# extglob toggled on a previous line vs on the same line, top-level return, $-, $_
+
+KF_ALIAS = "KF-C15-alias-same-line"
+KF_EXTGLOB = "KF-C15-extglob-parse-option"
+KF_NOUNSET = "KF-C15-nounset-status-by-mode"
+CTX_MODES = ("file", "c", "source", "eval", "stdin_s", "stdin")
+
+
+def context_programs(rng):
+    code = rng.choice([0, 1, 2, 7, 126, 127, 128, 255, 256, 257, 300, 511, 1000, 65539, -1, -2, -255, -256])
+    w = rng.choice(["x", "x y", "", "*", "a'b", "-n"])
+    return {
+        "args": 'echo "0=[$0] n=$# 1=[$1] 2=[$2] all=[$*]"\nfor a in "$@"; do echo "<$a>"; done\nset -- x y z\nshift\necho "n=$# 1=$1"\n',
+        "func_args": 'f() { echo "f:$# [$1] 0=[$0]"; }\nf p q\necho "top:$#"\n',
+        "status_last": 'echo a\n(exit %d)\n' % abs(code),
+        "exit_code": 'echo a\nexit %d\necho no\n' % code,
+        "exit_last": '(exit %d)\nexit\n' % (abs(code) % 256),
+        "exit_in_func": 'f() { exit %d; }\nf\necho no\n' % (abs(code) % 256),
+        "sete": 'set -e\necho a\nfalse\necho not\n',
+        "sete_last": 'set -e\necho a\n(exit %d)\n' % (abs(code) % 256),
+        "sete_trap": "trap 'echo bye:$?' EXIT\nset -e\necho a\n(exit %d)\necho not\n" % (abs(code) % 256 or 3),
+        "errtrap": "trap 'echo err:$?' ERR\nfalse\necho after:$?\n",
+        "exittrap_exit": "trap 'echo t:$?' EXIT\nexit %d\n" % code,
+        "exittrap_last_fails": "trap 'echo t:$?' EXIT\necho a\nfalse\n",
+        "alias_later": "shopt -s expand_aliases\nalias hi='echo hi-alias'\nhi '%s'\necho st:$?\n" % w.replace("'", ""),   # quoted: the work directory is shared by concurrent cases
+        "alias_same": "shopt -s expand_aliases\nalias hj='echo hj-alias'; hj\necho st:$?\n",
+        "alias_in_func": "shopt -s expand_aliases\nalias hk='echo hk-alias'\nf() { hk; }\nf\n",
+        "alias_unalias": "shopt -s expand_aliases\nalias hm='echo hm-alias'\nhm\nunalias hm\nhm\necho st:$?\n",
+        "extglob_later": "shopt -s extglob\ncase ab in @(ab|cd)) echo m;; *) echo n;; esac\n",
+        "extglob_same": "shopt -s extglob; case ab in @(ab|cd)) echo m;; *) echo n;; esac\necho st:$?\n",
+        "extglob_off_later": "shopt -u extglob\necho before\ncase ab in @(ab|cd)) echo m;; *) echo n;; esac\necho st:$?\n",
+        "extglob_on_off_on": "shopt -s extglob\necho +(a) > /dev/null\nshopt -u extglob\necho mid\nshopt -s extglob\ncase aa in +(a)) echo m;; esac\n",
+        "return_top": "echo a\nreturn 5\necho b:$?\n",
+        "setu": "set -u\necho a\necho ${nope}\necho after\n",
+        "interactive": 'case $- in *i*) echo I;; *) echo N;; esac\n',
+        "dollar_underscore": 'echo x y\necho "$_"\n',
+    }, ["A", w] if w else ["A"]
+
+
+def run_ctx_modes(shell_argv, text, args, workdir, tag):
+    path = os.path.join(workdir, "c%s.sh" % tag)
+    with open(path, "w") as f:
+        f.write(text)
+    env = _env(workdir)
+    res = {}
+
+    def go(mode, argv, stdin=None):
+        try:
+            p = _run(shell_argv + argv, cwd=workdir, env=env, stdin=stdin, timeout=8)
+            res[mode] = (p.returncode, p.stdout.decode("utf-8", "replace"), p.stderr.decode("utf-8", "replace")[:200])
+        except subprocess.TimeoutExpired:
+            res[mode] = ("timeout", "", "")
+    go("file", [path] + args)
+    go("c", ["-c", text, "name"] + args)
+    go("source", ["-c", ". " + path + ' "$@"', "name"] + args)
+    go("eval", ["-c", 'p=$1; shift; eval "$p"', "name", text] + args)
+    with open(path, "rb") as f:
+        go("stdin_s", ["-s"] + args, stdin=f)
+    with open(path, "rb") as f:
+        go("stdin", [], stdin=f)
+    os.remove(path)
+    return res
+
+
+def ctx_norm(r, workdir):
+    """the shell's own name and the script path are the only legitimate differences between the two shells"""
+    import re
+    out = r[1].replace(workdir + "/", "")
+    out = re.sub(r"c[ab]\d+\.sh", "SCRIPT", out)
+    out = re.sub(r"\[[^\]\s]*/(vbrush|bash)\]|\[(vbrush|brush|bash)\]", "[SHELL]", out)
+    return (r[0], out)
+
+
+def ctx_known(name, mode, b, a):
+    """narrow classes of recorded divergences (known_findings.json); exact outputs"""
+    if name == "alias_same" and b == (0, "hj-alias\nst:0\n") and a == (0, "st:127\n"):
+        return KF_ALIAS
+    if name == "extglob_same" and b == (0, "m\nst:0\n") and a == (2, ""):
+        return KF_EXTGLOB
+    if name == "extglob_off_later" and mode in ("file", "c", "source", "eval") and b == (0, "before\nn\nst:0\n") and a == (2, "before\n"):
+        return KF_EXTGLOB
+    if name == "setu" and mode in ("c", "source", "eval") and b == (1, "a\n") and a == (127, "a\n"):
+        return KF_NOUNSET
+    return None
+
+
+def check_contexts(ctx, workdir, res):
+    rounds = 3 if ctx.quick else 20
+    jobs = []
+    for r in range(rounds):
+        progs, args = context_programs(ctx.rng)
+        for name, text in progs.items():
+            jobs.append((name, text, args, len(jobs)))
+
+    def one(j):
+        name, text, args, i = j
+        return j, run_ctx_modes(brush_argv(ctx), text, args, workdir, "b%d" % i), run_ctx_modes(BASH_ARGV, text, args, workdir, "a%d" % i)
+    with ThreadPoolExecutor(8) as ex:
+        out = list(ex.map(one, jobs))
+    dev, seen = {}, set()
+    for (name, text, args, _), br, ba in out:
+        for m in CTX_MODES:
+            res["evaluations"] += 1
+            b, a = ctx_norm(br[m], workdir), ctx_norm(ba[m], workdir)
+            if b == a:
+                continue
+            kf = ctx_known(name, m, b, a)
+            v = {"input": {"program": text, "args": args, "mode": m, "context": name},
+                 "why": "delivery context %s as %s: brush %r, bash %r" % (name, m, b, a), "stderr": br[m][2]}
+            if kf:
+                v["known"] = kf
+            dev[name] = dev.get(name, 0) + 1
+            if not kf or (kf, name, m) not in seen:
+                seen.add((kf, name, m))
+                res["spec_violations"].append(v)
+        res["nontrivial"].add("ctx:" + text)
+    res["dist_modes"]["context_programs (differential only: brush vs bash per mode)"] = len(jobs)
+    res["dist_modes"]["context_deviations_by_program"] = dev
+
 # --------------------------------------------------------------------------------------------
 # purity
 
@@ -881,6 +1006,72 @@ def field_sequences(ctx):
                     pairs.append((api, f, t, a, b))
     return seqs, pairs, fields
 
+
+# texts that differ only in ways a lossy (non-injective) cache key could collapse: for every memoised entry
+# point, pairs (t, v) are parsed in both orders in long-lived processes and compared with fresh processes
+FAMILY_SEEDS = {
+    "arith": ["x + ++y", "a - --b", "a+ +b", "a- -b", "1 + 2", "a=3", "x ? y : z", "a[1]+b", "A+b", "10", "x<<2", "a&&b", "- -a", "x+1"],
+    "word": ["a b", "$x y", "'a b'", "${x:-a b}", "~/x", "A$b", "a\\ b", "\"a b\"c", "ab"],
+    "tok": ["echo a b", "a|b", "x 'y z'", "A b", "a >f", "a;b", "ab c"],
+    "prog": ["echo a b\n", "a | b\n", "x='y z'\n", "if a; then b; fi\n", "A b\n", "f() { a; }\n", "echo ab\n"],
+}
+FAMILY_DESIGNED = {
+    "arith": [("x + ++y", "x++ + y"), ("a - --b", "a-- - b"), ("a+ +b", "a++b"), ("a- -b", "a--b"), ("1 + 2", "12"), ("- -a", "--a")],
+    "word": [("a b", "ab"), ("$x y", "$xy")], "tok": [("a b", "ab"), ("echo a b", "echo ab")],
+    "prog": [("echo a b\n", "echo ab\n"), ("a; b\n", "a\nb\n")],
+}
+FAMILY_OPTS = {"arith": "", "word": "et", "tok": "e", "prog": "e"}
+
+
+def text_variants(rng, t):
+    """-> [(kind, variant)]: perturbations a lossy key (trim, strip blanks, lower-case, hash of a prefix, length, ...) could collapse"""
+    out = []
+    body = t[:-1] if t.endswith("\n") and len(t) > 1 else t
+    tail = t[len(body):]
+    nb = [c for c in body if c not in " \t"]
+    # every/some placements of single blanks between the non-blank characters
+    n = len(nb)
+    masks = range(1 << (n - 1)) if 1 < n <= 6 else [rng.getrandbits(max(n - 1, 1)) for _ in range(14)]
+    for m in masks:
+        v = "".join(c + (" " if i < n - 1 and (m >> i) & 1 else "") for i, c in enumerate(nb))
+        out.append(("blank placement", v + tail))
+    out += [("leading blank", " " + t), ("trailing blank", body + " " + tail), ("doubled blanks", body.replace(" ", "  ") + tail),
+            ("tab for blank", body.replace(" ", "\t") + tail), ("newline for blank", body.replace(" ", "\n") + tail),
+            ("blank for newline", body.replace("\n", " ") + tail), ("no final newline", body),
+            ("upper case", body.upper() + tail), ("lower case", body.lower() + tail), ("swapped case", body.swapcase() + tail),
+            ("quote style", body.translate({39: 34, 34: 39}) + tail),
+            ("prefix", body[:-1] + tail), ("suffix", body[1:] + tail), ("extended", body + "a" + tail), ("extended front", "a" + body + tail),
+            ("reversed", body[::-1] + tail), ("sorted characters", "".join(sorted(body)) + tail),
+            ("same length", body[:-1] + ("b" if body[-1:] != "b" else "c") + tail),
+            ("leading zero", "".join("0" + c if c.isdigit() and (i == 0 or not body[i - 1].isalnum()) else c for i, c in enumerate(body)) + tail)]
+    for i in range(len(body) - 1):
+        if body[i] != body[i + 1]:
+            out.append(("adjacent characters swapped", body[:i] + body[i + 1] + body[i] + body[i + 2:] + tail))
+    seen, res = {t}, []
+    for k, v in out:
+        if v and v not in seen:
+            seen.add(v)
+            res.append((k, v))
+    return res
+
+
+def family_sequences(ctx):
+    seqs, pairs = [], []
+    for api, seeds in sorted(FAMILY_SEEDS.items()):
+        o = FAMILY_OPTS[api]
+        fam = [("designed", a, b) for a, b in FAMILY_DESIGNED[api]]
+        for t in seeds:
+            vs = text_variants(ctx.rng, t)
+            fam += [(k, t, v) for k, v in vs]
+            # variants among themselves (two spacings of the same characters)
+            sp = [v for k, v in vs if k == "blank placement"]
+            fam += [("blank placement", a, b) for a, b in zip(sp, sp[1:])]
+        for k, a, b in fam:
+            seqs.append([(api, o, a), (api, o, b)])
+            seqs.append([(api, o, b), (api, o, a)])     # the next index goes to another long-lived process
+            pairs.append((api, k, a, b))
+    return seqs, pairs
+
 def purity_cases(ctx):
     rng = ctx.rng
     seqs = []
@@ -909,11 +1100,12 @@ def purity_cases(ctx):
         rest = [s for s in seqs[:n_designed] if not (len({x[2] for x in s}) == 1 or len(s) > 60)]
         seqs = keep + rng.sample(rest, min(len(rest), 2500)) + seqs[n_designed:]
     fseqs, pairs, fields = field_sequences(ctx)
-    return fseqs + seqs, pairs, fields
+    tseqs, tpairs = family_sequences(ctx)
+    return tseqs + fseqs + seqs, pairs, fields, tpairs
 
 
 def check_purity(ctx, res):
-    seqs, field_pairs, fields = purity_cases(ctx)
+    seqs, field_pairs, fields, text_pairs = purity_cases(ctx)
     flat = [list(x) for s in seqs for x in s]
     uniq = sorted({tuple(x) for x in flat})
     fresh = ctx.impl("c15fresh", [list(u) for u in uniq], shards=16, timeout=IMPL_TIMEOUT)
@@ -935,11 +1127,14 @@ def check_purity(ctx, res):
         if len(v) > 1:
             sens.add(k)
     for cases, out in outs:
+        prev = None
         for c, o in zip(cases, out):
             n += 1
+            before, prev = prev, c
             f = fresh_of[tuple(c)]
             if o != f and sum(1 for v in res["spec_violations"] if "api" in v.get("input", {})) < 25:
-                res["spec_violations"].append({"input": {"api": c[0], "options": c[1], "text": c[2]},
+                res["spec_violations"].append({"input": {"api": c[0], "options": c[1], "text": c[2],
+                                                         "parsed_just_before": {"options": before[1], "text": before[2]} if before else None},
                                                "why": "parse result in a long-lived process differs from a fresh process "
                                                       "(depends on what was parsed before): %r vs fresh %r" % (
                                                           core.dec_line(o)[-1:] if " " in o else o, core.dec_line(f)[-1:] if " " in f else f)})
@@ -954,6 +1149,18 @@ def check_purity(ctx, res):
     blind = sorted("%s.%s" % k for k, v in FIELD_TEXTS.items() if v and k[1] in fields.get(k[0], []) and k[1] in SETTABLE[k[0]] and k not in field_sens)
     if blind:
         raise core.CheckBroken("purity check: no text whose parse depends on option field(s) %s: the check would be blind to a key that drops them" % blind)
+    # text families: how many pairs of each kind really parse differently (only those can expose a lossy key)
+    fam = {}
+    for api, k, a, b in text_pairs:
+        o = FAMILY_OPTS[api]
+        d = fresh_of[(api, o, a)] != fresh_of[(api, o, b)]
+        e = fam.setdefault("%s: %s" % (api, k), [0, 0])
+        e[0] += 1
+        e[1] += 1 if d else 0
+    res["dist_purity"]["text_family_pairs (total, parse differently)"] = fam
+    dead = sorted(k for k, (n_, d_) in fam.items() if k.endswith("designed") and d_ < n_)
+    if dead:
+        raise core.CheckBroken("purity check: designed colliding texts no longer parse differently: %s" % dead)
     res["dist_purity"]["fields_varied"] = {api: "".join(ls) for api, ls in fields.items()}
     res["dist_purity"]["field_sensitive_texts"] = {"%s.%s" % k: len(v) for k, v in sorted(field_sens.items())}
     if len(sens) < 8:
@@ -1129,6 +1336,7 @@ def run(ctx):
         check_concat(ctx, progs, res)
         check_toy_modes(ctx, workdir, res, want)
         check_modes(ctx, progs, workdir, res)
+        check_contexts(ctx, workdir, res)
         check_eval_lines(ctx, progs, workdir, res)
         out = finish(ctx, res, progs)
         out["extraction_crosscheck"] = crosscheck(ctx, res)
